@@ -446,6 +446,11 @@ class Gen:
                 acts.append((2.0, ("chalresp", cid)))
             if not self.scripts.get(cid) and not any(i.awaiting.values()):
                 acts.append((0.4, ("giveup", cid)))
+        # lines of the server that cross the daemon's verdict on the wire: more data, a password, the registration
+        # or disconnect notice for a client that has just been decided (the daemon must drop them silently)
+        for i in w.all[-6:]:
+            if i.ended in ("D", "R", "k") and i.cid not in w.live and not getattr(i, "crossed", 0) >= 2:
+                acts.append((2.5, ("crossing", i)))
         if self.w_adv:
             acts.append((self.w_adv, "adv"))
         acts.append((0.5, "stats"))
@@ -567,6 +572,13 @@ class Gen:
             if ev == "P" and not wellshaped(arg):
                 self.fire("cli_pass_illshaped")
             return {"op": "cli", "cid": cid, "ev": ev, "arg": arg}
+        if a[0] == "crossing":
+            i = a[1]
+            i.crossed = getattr(i, "crossed", 0) + 1
+            self.fire("line_crossing_the_verdict")
+            ev = r.choice(["P", "P", "n", "u", "U", "H", "T", "D", "N"])
+            arg = {"P": self.gen_pass(True), "n": word(r, 6), "u": word(r, 5), "U": [word(r, 5), "Real Name"], "N": "late.example.org"}.get(ev)
+            return {"op": "cli", "cid": i.cid, "ev": ev, "arg": arg}
         if a[0] == "chalresp":
             return {"op": "cli", "cid": a[1], "ev": "P", "arg": r.choice(["Mellon", "response with words", "+x looks shaped", word(r, 20)])}
         if a[0] == "giveup":
@@ -884,6 +896,12 @@ class Exec:
     def feed_line(self, c):
         data = c["line"].encode("latin1") + (b"\r\n" if c.get("crlf") else b"\n")
         lines = []
+        if c.get("pad"):
+            # the line arrives in the middle of a backlog: kilobytes of other clients' traffic (short-lived
+            # clients on an id nobody else uses) written in the same burst, before and after it
+            one = b"7777 C 10.9.8.7 1000 0::1 6667\n7777 n padnick\n7777 D\n"
+            data = one * c["pad"][0] + data + one * c["pad"][1]
+            self.w.probe("line_inside_a_backlog")
         if c.get("rdf"):
             self.h.rdfault(c["rdf"], 1)
             self.w.probe("rd_" + c["rdf"].lower())
@@ -1137,6 +1155,7 @@ class Exec:
         res.states = w.states
         res.transitions = w.transitions
         res.verdicts = dict(w.verdicts)
+        res.tagmap = {i.tag: i.cid for i in w.all if i.tag}
         res.ubsan = ex.ubsan
         res.viol = list(w.viol)
         res.in_use_checks = w.in_use_checks
